@@ -148,6 +148,9 @@ func (e *c11Env) progress(after string) *vVerdict {
 		}
 		time.Sleep(2 * time.Millisecond)
 	}
+	if vStarved(20 * time.Second) {
+		return &vVerdict{Inconclusive: "no block for 8 s, but this process was not scheduled for most of a second meanwhile (overloaded machine)"}
+	}
 	v := vFailf("data-stalled|"+after, "after %s no data block was processed for 8 s although the source is running\n%s", after, vTrim(c11Relevant(vGoroutineDump()), 2500))
 	return &v
 }
